@@ -41,7 +41,7 @@ def run(tier, seed, replay=None):
     rep.assumptions = ["box names/data are generator-chosen tokens (no names that collide with "
                        "the derived names of Swap/Cup/Cap)"]
     rep.lean = lean_obligations(PROP, thorough=(tier == "thorough"))
-    n_cases = 400 if tier == "quick" else 6000
+    n_cases = 400 if tier == "quick" else 30000
     rng = random.Random(seed)
     drv = Driver()
     monitor_hits = []
